@@ -17,6 +17,17 @@ from symx.report import Report, EXIT_HARNESS
 LEVELS = {'C06': 'model_checking', 'C07': 'model_checking', 'C09': 'model_checking'}
 
 
+def _init_worker():
+    """workers die with the driver (PR_SET_PDEATHSIG), so that a check stopped from outside leaves no solver processes behind"""
+    try:
+        import ctypes
+        import signal
+
+        ctypes.CDLL('libc.so.6').prctl(1, signal.SIGKILL)
+    except Exception:
+        pass
+
+
 def _worker(args):
     pid, tier, seed, task = args
     logging.disable(logging.CRITICAL)
@@ -61,7 +72,7 @@ def main(argv=None):
             results = [_worker((pid, a.tier, seed, t)) for t in tasks]
         else:
             ctx = mp.get_context('spawn')
-            with ctx.Pool(min(a.jobs, len(tasks))) as pool:
+            with ctx.Pool(min(a.jobs, len(tasks)), initializer=_init_worker) as pool:
                 results = pool.map(_worker, [(pid, a.tier, seed, t) for t in tasks], chunksize=1)
         slow = sorted(((r['task_wall'], r['task']) for r in results), reverse=True)[:5]
         rep.extra['tasks'] = len(tasks)
